@@ -42,6 +42,38 @@ Theorem c05_cmsg6 : forall e a p flow tail pre post,
 Proof. exact cmsg6. Qed.
 Print Assumptions c05_cmsg6.
 
+(* (3k) the same through the control buffer as the KERNEL fills it (Linux put_cmsg: a message that
+       does not fit is CUT to the room left and MSG_CTRUNC is reported).  recv_udp offers
+       CMSG_SPACE(24): 24 bytes of data room behind one header.  struct sockaddr_in (16 bytes) is
+       stored whole, no flag.  struct sockaddr_in6 is 28 bytes: for EVERY IPv6 datagram the kernel
+       cuts it (inside the scope id, the address is intact) and sets MSG_CTRUNC - and the dialled
+       destination is still what recv_udp returns.  Stated for every header size / alignment and
+       every buffer with at least 24 bytes of data room. *)
+Theorem c05_cmsg4_kernel : forall e a p hdr al room,
+  length a = 4%nat -> p < 65536 -> hdr + 16 <= room ->
+  recv_udp_kernel e hdr al room [(SOL_IP, IP_ORIGDSTADDR, sockaddr_in e a p)] = (Ok (Some (fmt4 a, p)), false).
+Proof. exact cmsg4_kernel. Qed.
+Print Assumptions c05_cmsg4_kernel.
+
+Theorem c05_cmsg6_kernel : forall e a p flow scope hdr al room,
+  length a = 16%nat -> length flow = 4%nat -> p < 65536 -> hdr + ANC_DATA_ROOM <= room ->
+  fst (recv_udp_kernel e hdr al room [(SOL_IPV6, IPV6_ORIGDSTADDR, sockaddr_in6 e a p flow scope)])
+  = Ok (Some (fmt6_ntop a, p)).
+Proof. exact cmsg6_kernel. Qed.
+Print Assumptions c05_cmsg6_kernel.
+
+Theorem c05_cmsg6_kernel_always_ctrunc : forall e a p flow scope hdr al room,
+  length a = 16%nat -> length flow = 4%nat -> length scope = 4%nat -> hdr <= room -> room < hdr + 28 ->
+  snd (recv_udp_kernel e hdr al room [(SOL_IPV6, IPV6_ORIGDSTADDR, sockaddr_in6 e a p flow scope)]) = true.
+Proof. exact cmsg6_kernel_ctrunc. Qed.
+Print Assumptions c05_cmsg6_kernel_always_ctrunc.
+
+(* the buffer recv_udp offers on 64-bit and 32-bit Linux satisfies both hypotheses: 24 bytes of data room, fewer than 28 *)
+Example c05_ex_anc_room :
+  cmsg_space 16 8 ANC_DATA_ROOM = 40 /\ cmsg_space 12 4 ANC_DATA_ROOM = 36 /\
+  16 + ANC_DATA_ROOM <= 40 /\ 40 < 16 + 28 /\ 12 + ANC_DATA_ROOM <= 36 /\ 36 < 12 + 28.
+Proof. repeat split; vm_compute; congruence. Qed.
+
 (* (4) canonical texts parse back to the address and never contain ','. *)
 Theorem c05_text_v4 : forall a, length a = 4%nat ->
   parse4 (fmt4 a) = Some a /\ ~ In COMMA (fmt4 a).
